@@ -11,6 +11,17 @@ TRUST = ('TLC/SANY (and Apalache where named), the JSON bridge between TLC and t
          'guards the bridge. ')
 
 CHECKS = {
+    'C17': dict(
+        technique='TLA+ model (spec/Versions.tla): dotted versions as base-1000 digit sequences with lexicographic order; PEP 440 versions as [epoch, release, pre, post, dev] records with the normative ordering as a TLA+ operator (Trichotomy / Antisymmetric / LexTotal and the PEP 440 landmark chain checked by TLC); CompatRef and PredRef; all enumerated cases rendered and executed against convert_version_to_int/_str/_tuple, is_compatible, VersionPredicate',
+        category='model_checking',
+        text='The radix-1000 encoding is specified without big numbers (the integer is the digit sequence; gamma evaluates it), so '
+             'round trip and order preservation are exact statements about sequences; TLC enumerates 5.6k component tuples (string and '
+             'tuple form, six suffix classes), 3.1k equal-length pairs, malformed texts, all 3.9k ordered pairs of a 60-element '
+             'PEP 440 lattice x same_major and 13k predicate conjunctions, checking that the reference order is a strict total order '
+             'and satisfies the PEP 440 landmark chain; the harness renders versions and predicates (random blanks) and compares '
+             'values, booleans and ValueError exactly; 20k/400k random component tuples repeat round trip and order.',
+        design_ref='6/C17',
+        note=TRUST + 'Components >= 1000 and blank-padded components are outside the statement.'),
     'C19': dict(
         technique='TLA+ reference functions (spec/Split.tla: SplitPath over the /-separated fields of the rendered path; Encode/Quote and SplitRef parser over character classes for split_by_commas) with 13 invariants (result length, None padding, validity conditions, SplitRef(Encode(xs)) = xs, malformed => ValueError) checked by TLC on four enumerated families (paths x minsegs x maxsegs x rest_with_last, item lists, all character sequences up to length 6/7, malformed quoting patterns); every case rendered and executed',
         category='model_checking',
